@@ -11,6 +11,9 @@ def main():
     if pid in ('C01', 'C02', 'C03'):
         import buf
         buf.main(pid, 'quick' if tier == 'replay' else tier, rp)
+    elif pid == 'C04':
+        import stream
+        stream.main(pid, 'quick' if tier == 'replay' else tier, rp)
     elif pid in ('C05', 'C06', 'C07', 'C08', 'C09'):
         import conn
         conn.main(pid, 'quick' if tier == 'replay' else tier, rp)
